@@ -6,7 +6,7 @@ CHECKS = {
  # id: (category, technique, level text, level note, design ref)
  "C11": ("exploration",
          "property-based testing (proptest choice vectors) against a reference merge + metamorphic permutation",
-         "Generated multisets of definitions/extensions of all seven kinds (any order, 1-4 files, random trivia) are resolved by nitrogql and compared per (kind,name) with an independent reference merge; error iff duplicate/orphan with the position at an offending item; permutation/redistribution metamorphic relation. A sixth of the cases are large documents (dozens of filler definitions around the interesting ones). Sampling, not proof: bounds are <=6 definitions + <=6 extensions per case (plus fillers).",
+         "Generated multisets of definitions/extensions of all seven kinds (any order, 1-4 files, random trivia) are resolved by nitrogql and compared per (kind,name) with an independent reference merge; error iff duplicate/orphan with the position at an offending item; permutation/redistribution metamorphic relation. A sixth of the cases are large documents (dozens of filler definitions around the interesting ones). Sampling, not proof: bounds are <=6 definitions + <=6 extensions per case (plus fillers). Second campaign cli-merge on the built CLI: valid definitions-plus-extensions schemas over 2-4 files (a built-in scalar may be extended) or one resolution fault in a chosen file; exit 0, or exit 1 with a diagnostic in a file holding an offending item.",
          "Trusts the harness renderer/AST-to-model converter (self-checked: every generated text must parse). Definition order in the output is not compared.",
          "DESIGN.md §4 C11"),
  "C20": ("exploration",
